@@ -220,7 +220,7 @@ def generate(seed, tier):
                             ([("revolve", 420, 7, 0, COSTS[0]), ("hrevolve", 330, 2, 4, (1, 1, 1, 3)), ("disk", 380, 2, 0, (3, 1, 1, 1))] if thorough else []):
         g.rev(kind, N, r, d, c)
     # many nested disk checkpoints: cheap disk storage next to an expensive forward step, one or two memory slots (round 9)
-    for kind, N, r, d, c in [("disk", 270, 1, 0, (3, 2, 1, 0)), ("periodic", 270, 1, 0, (3, 2, 1, 0)), ("disk", 300, 2, 0, (4, 1, 1, 1))] + \
+    for kind, N, r, d, c in [("disk", 270, 1, 0, (3, 2, 1, 0)), ("periodic", 270, 1, 0, (3, 2, 1, 0)), ("revolve", 270, 1, 0, (3, 2, 1, 0)), ("disk", 300, 2, 0, (4, 1, 1, 1))] + \
                             ([("disk", 400, 1, 0, (3, 2, 1, 0)), ("disk", 330, 1, 0, (5, 1, 1, 1)), ("hrevolve", 300, 1, 3, (4, 1, 1, 1))] if thorough else []):
         g.rev(kind, N, r, d, c)
     # costs of other magnitudes: totals beyond 10**6, 2**31 and 2**53 on short chains (a table initialised with a finite "infinity", a
